@@ -110,9 +110,13 @@ def organics():
     return list(ORGANICS)
 
 
+# E/Z-labelled double bonds inside rings of eight and more atoms (RDKit labels them; smaller rings are cis by construction)
+MACROCYCLES = ["C1CCC/C=C/CC1", "C1CCC/C=C\\CC1", "C1CCCCC/C=C/CCCC1", "CC1CCCC/C=C/CCC1", "C1CC/C=C/CC/C=C/C1"]
+
+
 @lru_cache(None)
 def ions():
-    return list(IONS)
+    return list(IONS) + list(MACROCYCLES)
 
 
 def stereoisomers(smi):
